@@ -89,6 +89,7 @@ type Response struct {
 	TracingId     *primitive.UUID
 	Warnings      []string
 	CustomPayload map[string][]byte
+	NoCompress    bool // send the body uncompressed even if compression was negotiated
 }
 
 type Node struct {
@@ -187,6 +188,7 @@ func (cl *Cluster) Event(evt message.Message) int {
 	for _, c := range cl.allConns() {
 		if c.Registered() {
 			f := frame.NewFrame(c.Version, -1, evt)
+			c.maybeCompress(f)
 			if c.write(func(w io.Writer) error { return Codec(c.Compression).EncodeFrame(f, w) }) == nil {
 				n++
 			}
@@ -344,7 +346,18 @@ func (c *Conn) WriteRaw(b []byte) error {
 
 func (c *Conn) Send(version primitive.ProtocolVersion, stream int16, msg message.Message) error {
 	f := frame.NewFrame(version, stream, msg)
+	c.maybeCompress(f)
 	return c.write(func(w io.Writer) error { return Codec(c.Compression).EncodeFrame(f, w) })
+}
+
+// maybeCompress marks a frame for body compression as a real node does once compression was negotiated.
+func (c *Conn) maybeCompress(f *frame.Frame) {
+	c.mu.Lock()
+	comp := c.Compression
+	c.mu.Unlock()
+	if comp != "" && f.Header.OpCode != primitive.OpCodeReady && f.Header.OpCode != primitive.OpCodeSupported {
+		f.SetCompress(true)
+	}
 }
 
 func (c *Conn) serve() {
@@ -487,6 +500,9 @@ func (c *Conn) respond(header *frame.Header, resp Response) {
 		}
 		if resp.CustomPayload != nil {
 			f.SetCustomPayload(resp.CustomPayload)
+		}
+		if !resp.NoCompress {
+			c.maybeCompress(f)
 		}
 		_ = c.write(func(w io.Writer) error { return Codec(c.Compression).EncodeFrame(f, w) })
 	case RespRaw:
